@@ -4,4 +4,4 @@ GROUPS = [
  dict(name='dtx_step', cls='P', tu='C20_dtx.c', entry='h_dtx_step', dfcc=False, functions=['decide_dtx_mode'], timeout=300,
       what='inductive invariant over the ghost DTX run length: 200 ms start, 400 ms run bound, in-DTX predicate, activity reset'),
 ]
-META = {}
+META = {'cex': {'tu': 'C20_dtx.c', 'entry': 'h_dtx_step', 'unwind': 2, 'timeout': 300}}
